@@ -21,7 +21,6 @@ import (
 	"time"
 
 	"verifharness/drivers"
-	_ "verifharness/drivers/datapath"
 	"verifharness/trace"
 )
 
